@@ -176,14 +176,32 @@ func H_List_Methods() {
 		rev2, _, _ := getter(ra, "逆序")
 		zv.Assert(listIs(rev2.(*value.Array), model), "逆序 twice is the identity")
 		zv.Assert(listIs(arr, model), "逆序 does not change the receiver")
-	case 6: // 合并
-		m2, a2 := mkList()
-		res, err, p := method(arr, "合并", a2)
+	case 6: // 合并 with 0..2 arguments, each a fresh list or the receiver itself
+		k := zv.Choose(3)
+		want := append([]float64{}, model...)
+		var args []r.Element
+		var fresh []*value.Array
+		var freshModel [][]float64
+		for j := 0; j < k; j++ {
+			if zv.Choose(2) == 1 {
+				args = append(args, arr) // aliasing: the list is merged with itself
+				want = append(want, model...)
+			} else {
+				m2, a2 := mkList()
+				args = append(args, a2)
+				fresh = append(fresh, a2)
+				freshModel = append(freshModel, m2)
+				want = append(want, m2...)
+			}
+		}
+		res, err, p := method(arr, "合并", args...)
 		zv.Assert(p == nil && err == nil, "合并 succeeds")
 		ra, ok := res.(*value.Array)
 		zv.Assert(ok, "合并 yields a list")
-		zv.Assert(listIs(ra, append(append([]float64{}, model...), m2...)), "合并 concatenates")
-		zv.Assert(listIs(a2, m2), "合并 leaves its argument unchanged")
+		zv.Assert(listIs(ra, want), "合并 concatenates the receiver and its arguments as they were before the call")
+		for j := range fresh {
+			zv.Assert(listIs(fresh[j], freshModel[j]), "合并 leaves its argument unchanged")
+		}
 	case 7: // 包含 / 寻找 consistency
 		zv.Assume(x == x)
 		for _, e := range model {
